@@ -2,12 +2,14 @@ package mon
 
 import (
 	"fmt"
+	"strconv"
 	"strings"
 	"sync"
 
 	li "github.com/corazawaf/libinjection-go"
 
 	"verif/harness/core"
+	"verif/harness/gen"
 	"verif/harness/refsql"
 )
 
@@ -133,6 +135,8 @@ var c06Quick = []Mix{
 	{Gen: "longtok", N: 30000},
 	{Gen: "g03", N: 100000},
 	{Gen: "phrases", N: 0},
+	{Gen: "special5", N: 0},
+	{Gen: "tokseq", N: 3},
 }
 
 var c06Thorough = []Mix{
@@ -148,6 +152,8 @@ var c06Thorough = []Mix{
 	{Gen: "longtok", N: 500000},
 	{Gen: "g03", N: 2000000},
 	{Gen: "phrases", N: 1},
+	{Gen: "special5", N: 1},
+	{Gen: "tokseq", N: 5},
 }
 
 // C06 — SQLi pipeline conforms to the reference algorithm.
@@ -167,6 +173,16 @@ func c06() *core.Check {
 					us = append(us, core.Unit{Gen: "phrases", Lo: 0, Hi: 1, Arg: fmt.Sprint(m.N)})
 					continue
 				}
+				if m.Gen == "special5" {
+					for i := 0; i < 16; i++ {
+						us = append(us, core.Unit{Gen: "special5", Lo: uint64(i), Hi: 16, Arg: fmt.Sprint(m.N)})
+					}
+					continue
+				}
+				if m.Gen == "tokseq" {
+					us = append(us, gen.EnumUnits("tokseq", len(tokSeqAlphabet), int(m.N), 20000)...)
+					continue
+				}
 				us = append(us, planMix(sqlDomain, []Mix{m})...)
 			}
 			return us
@@ -174,6 +190,31 @@ func c06() *core.Check {
 		Gen: func(w *core.Worker, u core.Unit, emit func(core.Case)) {
 			if u.Gen == "phrases" {
 				genKeywordContexts(u.Arg == "1", emit)
+				return
+			}
+			if u.Gen == "special5" {
+				genSpecial5(int(u.Lo), int(u.Hi), u.Arg == "1", emit)
+				return
+			}
+			if u.Gen == "tokseq" {
+				k, _ := strconv.Atoi(u.Arg)
+				var buf []byte
+				var idx [8]int
+				for i := u.Lo; i < u.Hi; i++ {
+					x := i
+					for j := k - 1; j >= 0; j-- {
+						idx[j] = int(x % uint64(len(tokSeqAlphabet)))
+						x /= uint64(len(tokSeqAlphabet))
+					}
+					buf = buf[:0]
+					for j := 0; j < k; j++ {
+						if j > 0 {
+							buf = append(buf, ' ')
+						}
+						buf = append(buf, tokSeqAlphabet[idx[j]]...)
+					}
+					emit(core.Case{In: string(buf)})
+				}
 				return
 			}
 			sqlGen(w, u, emit)
@@ -239,5 +280,64 @@ func genKeywordContexts(full bool, emit func(core.Case)) {
 			emit(core.Case{In: low[:i] + "\n" + low[i+1:] + "(1)"})
 			emit(core.Case{In: low[:i] + "  " + low[i+1:]})
 		}
+	}
+}
+
+// tokSeqAlphabet: one spelling or more per token class and per word the
+// folding rules name; sequences are joined by single spaces.
+var tokSeqAlphabet = []string{"1", "a", "(", ")", ",", "+", "=", "in", "not in", "like", "\\", "user", "select", "union", "'s'", "@v", "or", "not", ";", "int", ".", "*", "{", "}", "if", "collate", "a_b", "::", "-", "sleep", "x.y", "`b`", "/*c*/", "--"}
+
+// genSpecial5: inputs built around the four five-token shapes the folder
+// special-cases (1 o ( 1 ) / n o ( n ) / 1 ) , ( 1 / n ) o ( n), with slot
+// spellings that only BECOME the required class through an in-place rewrite
+// (IN / NOT IN without '(' -> bareword, IN before '(' -> operator, LIKE,
+// backslash before an arithmetic operator -> number, USER(x) -> bareword),
+// followed by 0-2 more tokens so that a sixth token is buffered.
+func genSpecial5(part, parts int, full bool, emit func(core.Case)) {
+	num := []string{"1", "2.5", "\\N", "0x1f"}
+	bare := []string{"x", "in", "not in", "`a`", "[a]", "y1"}
+	op := []string{"=", "+", "like", "in", "||", "not in", "<=>", "mod"}
+	nOr1 := append(append([]string{}, bare...), num...)
+	type pat [][]string
+	pats := []pat{
+		{num, append([]string{","}, op...), {"("}, append(append([]string{}, num...), "\\*2", "\\"), {")"}},
+		{bare, op, {"("}, nOr1, {")"}},
+		{num, {")"}, {","}, {"("}, append(append([]string{}, num...), "\\*2", "\\+1")},
+		{bare, {")"}, op, {"("}, bare},
+	}
+	tails := []string{"", "y", "1", "union select 1", "or 1=1", "(", ")", "+", "--", "'a'", "in (1)", ",2", "=1", "*2", "union", "y union select 1", ") x", "( x"}
+	leads := []string{"", "(", "-", "1;"}
+	if !full {
+		leads = leads[:2]
+	}
+	k := 0
+	for _, p := range pats {
+		var rec func(i int, cur []string)
+		rec = func(i int, cur []string) {
+			if i == len(p) {
+				body := strings.Join(cur, "")
+				spaced := strings.Join(cur, " ")
+				for _, ld := range leads {
+					for _, t1 := range tails {
+						k++
+						if k%parts != part {
+							continue
+						}
+						emit(core.Case{In: ld + spaced + " " + t1})
+						emit(core.Case{In: ld + body + " " + t1})
+						if full {
+							for _, t2 := range tails[:10] {
+								emit(core.Case{In: ld + spaced + " " + t1 + " " + t2})
+							}
+						}
+					}
+				}
+				return
+			}
+			for _, x := range p[i] {
+				rec(i+1, append(cur, x))
+			}
+		}
+		rec(0, nil)
 	}
 }
